@@ -7,4 +7,6 @@ import Solvor.Flow.AssignLemmas
 import Solvor.Flow.AssignBack
 import Solvor.Flow.PairLemmas
 import Solvor.Flow.SSPCert
+import Solvor.Flow.SSPConv
+import Solvor.Flow.SSPReduce
 /-! Flow: helper lemmas (collected from the files of this directory). -/
